@@ -385,8 +385,14 @@ fn line_starts(content: &str) -> Vec<usize> {
     once(0)
         .chain(
             content
-                .lines()
-                .map(|line| line.len() + 1)
+                .split_inclusive('\n')
+                .map(|line| {
+                    if line.ends_with('\n') {
+                        line.len()
+                    } else {
+                        line.len() + 1
+                    }
+                })
                 .scan(0, |start, len| {
                     *start += len;
                     Some(*start)
